@@ -1,13 +1,17 @@
 package main
 
 import (
-	"sync"
 	"fmt"
+	"math"
+	"sort"
 	"strconv"
 	"strings"
+	"sync"
 	"time"
 
+	"github.com/rulego/streamsql"
 	"github.com/rulego/streamsql/types"
+	"github.com/rulego/streamsql/utils/cast"
 	"github.com/rulego/streamsql/window"
 )
 
@@ -220,6 +224,410 @@ func runC09(tier string, seed uint64, o *Out) error {
 		}
 		o.Line("C09 S sql %d %d %d %s # %s", n, ncols, len(rows), rowsTok(rows), resultsTok(res, true))
 		o.Count(fmt.Sprintf("sql N=%d cols=%d", n, ncols))
+	}
+	return carrierFamily(tier, seed, o)
+}
+
+// ---- the Go carriers of one number -------------------------------------------------------------
+// A numeric grouping value reaches the stream in whatever Go type its producer uses (JSON: float64;
+// Go-native producers: int, int32, uint8, float32, ...). The counting window keys its buffers by
+// cast.ToString of the value, the aggregator groups the rows of a batch by cast.GroupKeyPart: for
+// "the i-th result of a key aggregates that key's rows (i-1)N+1..iN" both sides must give one key
+// to one NUMBER whatever its carrier. The family below draws the carrier per row for the same value.
+var carrierNames = []string{"int", "i8", "i16", "i32", "i64", "uint", "u8", "u16", "u32", "u64", "f32", "f64"}
+
+const (
+	carF32 = 10
+	carF64 = 11
+)
+
+// carryInt: the integer z in Go type ty (ok=false: the type cannot hold exactly z). The float
+// carriers are used where every integer is exact (2^24, 2^53); uint below 2^63.
+func carryInt(ty int, z int64) (any, bool) {
+	in := func(lo, hi int64) bool { return z >= lo && z <= hi }
+	switch ty {
+	case 0:
+		return int(z), true
+	case 1:
+		return int8(z), in(math.MinInt8, math.MaxInt8)
+	case 2:
+		return int16(z), in(math.MinInt16, math.MaxInt16)
+	case 3:
+		return int32(z), in(math.MinInt32, math.MaxInt32)
+	case 4:
+		return z, true
+	case 5:
+		return uint(z), z >= 0
+	case 6:
+		return uint8(z), in(0, math.MaxUint8)
+	case 7:
+		return uint16(z), in(0, math.MaxUint16)
+	case 8:
+		return uint32(z), in(0, math.MaxUint32)
+	case 9:
+		return uint64(z), z >= 0
+	case carF32:
+		return float32(z), in(-(1 << 24), 1<<24)
+	case carF64:
+		return float64(z), in(-(1 << 53), 1<<53)
+	}
+	return nil, false
+}
+
+// carryFrac: the non-integral number f (a float64) as float32 (only if float32 holds exactly f) or float64
+func carryFrac(ty int, f float64) (any, bool) {
+	switch ty {
+	case carF32:
+		return float32(f), float64(float32(f)) == f
+	case carF64:
+		return f, true
+	}
+	return nil, false
+}
+
+func text64(f float64) string { return strconv.FormatFloat(f, 'g', -1, 64) }
+
+// text32: the shortest decimal that identifies f among the float32s ("-" if f is no float32)
+func text32(f float64) string {
+	if float64(float32(f)) != f {
+		return "-"
+	}
+	return strconv.FormatFloat(f, 'f', -1, 32)
+}
+
+// trow: a row whose numeric grouping values travel in a chosen Go type (tys[j] < 0: not a carried number)
+type trow struct {
+	grow
+	tys []int
+}
+
+// value tokens of a carried number:  I<type>:<decimal>   F<type>:<hex of the float64 text>:<hex of the float32 text | ->
+func carriedTok(v gval, ty int) string {
+	if ty < 0 {
+		return v.tok()
+	}
+	if v.kind == 'i' {
+		if v.s != "" { // a uint beyond int64: the decimal text
+			return "I" + carrierNames[ty] + ":" + v.s
+		}
+		return "I" + carrierNames[ty] + ":" + strconv.FormatInt(v.i, 10)
+	}
+	t32 := text32(v.f)
+	if t32 != "-" {
+		t32 = hexTok(t32)
+	}
+	return "F" + carrierNames[ty] + ":" + hexTok(text64(v.f)) + ":" + t32
+}
+
+func trowsTok(rows []trow) string {
+	parts := make([]string, 0, len(rows))
+	for _, r := range rows {
+		p := []string{strconv.FormatInt(r.id, 10)}
+		for j, v := range r.vals {
+			p = append(p, carriedTok(v, r.tys[j]))
+		}
+		parts = append(parts, strings.Join(p, " "))
+	}
+	return strings.Join(parts, " ")
+}
+
+func plainRows(rows []trow) []grow {
+	g := make([]grow, len(rows))
+	for i, r := range rows {
+		g[i] = r.grow
+	}
+	return g
+}
+
+// normNum: the number a reported value IS (the Go type of a reported group column is the carrier of the
+// group's first row; the property speaks about the value)
+func normNum(x any) any {
+	switch t := x.(type) {
+	case int8:
+		return int64(t)
+	case int16:
+		return int64(t)
+	case uint:
+		if uint64(t) > math.MaxInt64 {
+			return float64(t)
+		}
+		return int64(t)
+	case uint8:
+		return int64(t)
+	case uint16:
+		return int64(t)
+	case uint32:
+		return int64(t)
+	case uint64:
+		if t > math.MaxInt64 {
+			return float64(t)
+		}
+		return int64(t)
+	case float32:
+		return float64(t)
+	}
+	return x
+}
+
+// the numbers of the family. small: every carrier (or every signed one) holds them; edge: type limits,
+// where only some carriers remain; fractions: short ones (dyadic, the float32 and the float64 print the
+// same digits) and float64-only ones.
+var (
+	carSmall   = []int64{0, 1, 7, 7, 12, 100, 127, -1, -7, -128}
+	carEdge    = []int64{128, 255, 256, -129, 32767, 32768, 65535, 65536, 100000000, 1 << 24, 1<<24 + 1, -(1 << 24), math.MaxInt32, 1 << 31, math.MaxUint32, 1 << 32, 1 << 53, 1<<53 + 1, -(1 << 53), 1 << 61}
+	carShort   = []float64{1.5, -0.25, 0.5, 2.75, 7.5, 1024.5, 0.0078125, -3.125}
+	carF64only = []float64{1.1, 0.1, -2.3, 1e-3}
+	// float32 numbers whose float32 text ("1.1") is shorter than their float64 text ("1.100000023841858")
+	carWide = []float64{float64(float32(1.1)), float64(float32(0.1)), float64(float32(-2.3))}
+)
+
+func pickCarrier(rng *RNG, fits func(ty int) bool) int {
+	var ok []int
+	for ty := range carrierNames {
+		if fits(ty) {
+			ok = append(ok, ty)
+		}
+	}
+	if fits(carF32) && rng.Intn(3) == 0 { // the carrier no JSON producer uses must be frequent
+		return carF32
+	}
+	return ok[rng.Intn(len(ok))]
+}
+
+// genCarried: counting-window rows over 1..3 grouping columns, at least one of them numeric; a pool of
+// 1..4 key tuples; every row draws its tuple from the pool and, per numeric value, a fresh carrier.
+// wide = the float32-text family (see carWide); otherwise every fraction prints alike in all its carriers.
+func genCarried(rng *RNG, wide bool) (n, ncols int, rows []trow) {
+	n = []int{1, 2, 2, 3, 3, 4, 7}[rng.Intn(7)]
+	ncols = 1 + rng.Intn(3)
+	numeric := make([]bool, ncols)
+	numeric[rng.Intn(ncols)] = true
+	for j := range numeric {
+		if rng.Intn(2) == 0 {
+			numeric[j] = true
+		}
+	}
+	number := func() gval {
+		if wide {
+			switch rng.Intn(4) {
+			case 0:
+				return gval{kind: 'f', f: carF64only[rng.Intn(3)]}
+			case 1:
+				return gval{kind: 'i', i: carSmall[rng.Intn(len(carSmall))]}
+			}
+			return gval{kind: 'f', f: carWide[rng.Intn(len(carWide))]}
+		}
+		switch r := rng.Intn(10); {
+		case r < 5:
+			return gval{kind: 'i', i: carSmall[rng.Intn(len(carSmall))]}
+		case r < 7:
+			return gval{kind: 'i', i: carEdge[rng.Intn(len(carEdge))]}
+		case r < 9:
+			return gval{kind: 'f', f: carShort[rng.Intn(len(carShort))]}
+		}
+		return gval{kind: 'f', f: carF64only[rng.Intn(len(carF64only))]}
+	}
+	pool := make([][]gval, 1+rng.Intn(4))
+	for i := range pool {
+		t := make([]gval, ncols)
+		for j := range t {
+			switch {
+			case rng.Intn(14) == 0:
+				t[j] = gval{kind: 'n'}
+			case numeric[j]:
+				t[j] = number()
+			default:
+				t[j] = gval{kind: 's', s: rng.Pick([]string{"a", "b", "a|b", ""})}
+			}
+		}
+		pool[i] = t
+	}
+	l := rng.Intn(6 * n)
+	if rng.Intn(3) == 0 {
+		l = n * (1 + rng.Intn(5))
+	}
+	rows = make([]trow, l)
+	for i := range rows {
+		t := pool[rng.Intn(len(pool))]
+		r := trow{grow: grow{id: int64(i + 1), vals: append([]gval(nil), t...), raw: map[int]any{}}, tys: make([]int, ncols)}
+		for j, v := range r.vals {
+			r.tys[j] = -1
+			switch v.kind {
+			case 'i':
+				r.tys[j] = pickCarrier(rng, func(ty int) bool { _, ok := carryInt(ty, v.i); return ok })
+				r.raw[j], _ = carryInt(r.tys[j], v.i)
+			case 'f':
+				r.tys[j] = pickCarrier(rng, func(ty int) bool { _, ok := carryFrac(ty, v.f); return ok })
+				r.raw[j], _ = carryFrac(r.tys[j], v.f)
+			case 'n':
+				if rng.Intn(3) == 0 {
+					r.vals[j].kind = 'm'
+				}
+			}
+		}
+		rows[i] = r
+	}
+	return
+}
+
+// carriedSQL: the counting query of countingSQL on carried rows; the reported group columns are read as numbers
+func carriedSQL(n, ncols int, rows []trow) ([]gresult, error) {
+	sql := fmt.Sprintf("SELECT %s, count(*) AS c, collect(id) AS ids, first_value(id) AS fi, last_value(id) AS la FROM stream GROUP BY %s, CountingWindow(%d)",
+		groupCols(ncols), groupCols(ncols), n)
+	s := streamsql.New()
+	defer s.Stop()
+	if err := s.Execute(sql); err != nil {
+		return nil, fmt.Errorf("%s: %w", sql, err)
+	}
+	var mu sync.Mutex
+	var out []gresult
+	s.AddSyncSink(func(res []map[string]any) {
+		mu.Lock()
+		defer mu.Unlock()
+		batch := make([]gresult, 0, len(res))
+		for _, r := range res {
+			m := make(map[string]any, len(r))
+			for k, v := range r {
+				m[k] = v
+			}
+			for j := 0; j < ncols; j++ {
+				if v, ok := m[colName(j)]; ok {
+					m[colName(j)] = normNum(v)
+				}
+			}
+			batch = append(batch, parseResult(m, ncols))
+		}
+		sort.SliceStable(batch, func(i, j int) bool { // one delivery ranges over a Go map
+			a, b := int64(-1), int64(-1)
+			if len(batch[i].ids) > 0 {
+				a = batch[i].ids[0]
+			}
+			if len(batch[j].ids) > 0 {
+				b = batch[j].ids[0]
+			}
+			return a < b
+		})
+		out = append(out, batch...)
+	})
+	for _, r := range rows {
+		s.Emit(r.toMap())
+	}
+	for _, m := range sentinelRows(n, ncols) {
+		s.Emit(m)
+	}
+	lim := waitLimit(3 * time.Second)
+	deadline := time.Now().Add(lim)
+	for {
+		mu.Lock()
+		ok := sawSentinel(out)
+		mu.Unlock()
+		if ok {
+			break
+		}
+		if time.Now().After(deadline) {
+			chargeWait(lim)
+			break
+		}
+		time.Sleep(200 * time.Microsecond)
+	}
+	mu.Lock()
+	defer mu.Unlock()
+	return dropSentinel(append([]gresult(nil), out...)), nil
+}
+
+// carrierFamily: lines
+//
+//	V <tag> <N> <ncols> <nrows> {id v..} # {nids ids..}                          window API, carried rows
+//	Y <tag> <N> <ncols> <nrows> {id v..} # {v.. count first last nids ids..}     SQL, carried rows
+//	N <carried value> <hex of cast.GroupKeyPart> <hex of CountingWindow.getKey>  the two key sites on one carrier
+func carrierFamily(tier string, seed uint64, o *Out) error {
+	rng := NewRNG(seed)
+	rng.s = rng.Next() ^ 0xC09CA221E2
+	nSQL, nAPI, nWide := 260, 260, 40
+	if tier == "thorough" {
+		nSQL, nAPI, nWide = 6000, 6000, 600
+	}
+	for i := 0; i < nSQL+nWide; i++ {
+		wide, tag := i >= nSQL, "sql-carriers"
+		if wide {
+			tag = "sql-f32text"
+		}
+		n, ncols, rows := genCarried(rng, wide)
+		res, err := carriedSQL(n, ncols, rows)
+		if err != nil {
+			return err
+		}
+		o.Line("C09 Y %s %d %d %d %s # %s", tag, n, ncols, len(rows), trowsTok(rows), resultsTok(res, true))
+		o.Count(tag)
+	}
+	for i := 0; i < nAPI+nWide; i++ {
+		wide, tag := i >= nAPI, "api-carriers"
+		if wide {
+			tag = "api-f32text"
+		}
+		n, ncols, rows := genCarried(rng, wide)
+		bs, err := countingAPI(n, ncols, plainRows(rows))
+		if err != nil {
+			return err
+		}
+		o.Line("C09 V %s %d %d %d %s # %s", tag, n, ncols, len(rows), trowsTok(rows), batchesTok(bs))
+		o.Count(tag)
+	}
+	// corpus: a uint at or above 2^63 next to the int64 its int() conversion wraps to (2^64-5 and -5; N = 2)
+	{
+		big := gval{kind: 'i', s: "18446744073709551611"}
+		small := gval{kind: 'i', i: -5}
+		var rows []trow
+		for i := 0; i < 4; i++ {
+			v, ty, x := big, 5, any(uint(math.MaxUint64-4))
+			if i%2 == 1 {
+				v, ty, x = small, 4, any(int64(-5))
+			}
+			rows = append(rows, trow{grow: grow{id: int64(i + 1), vals: []gval{v}, raw: map[int]any{0: x}}, tys: []int{ty}})
+		}
+		bs, err := countingAPI(2, 1, plainRows(rows))
+		if err != nil {
+			return err
+		}
+		o.Line("C09 V api-uintwrap 2 1 %d %s # %s", len(rows), trowsTok(rows), batchesTok(bs))
+		res, err := carriedSQL(2, 1, rows)
+		if err != nil {
+			return err
+		}
+		o.Line("C09 Y sql-uintwrap 2 1 %d %s # %s", len(rows), trowsTok(rows), resultsTok(res, true))
+		o.Count("corpus uint wrap")
+	}
+	// the two key sites, carrier by carrier
+	cw, err := window.NewCountingWindow(types.WindowConfig{Params: []any{2}, GroupByKeys: keyNames(1)})
+	if err != nil {
+		return err
+	}
+	defer cw.Stop()
+	site := func(v gval, ty int, x any) {
+		o.Line("C09 N %s %s %s", carriedTok(v, ty), hexTok(cast.GroupKeyPart(x)), hexTok(cw.VerifGetKey(map[string]any{colName(0): x})))
+		o.Count("key sites per carrier")
+	}
+	for _, u := range []uint64{1 << 63, 1<<63 + 5, math.MaxUint64 - 4, math.MaxUint64} {
+		site(gval{kind: 'i', s: strconv.FormatUint(u, 10)}, 5, uint(u))
+		site(gval{kind: 'i', s: strconv.FormatUint(u, 10)}, 9, u)
+	}
+	site(gval{kind: 'i', i: math.MinInt64}, 4, int64(math.MinInt64))
+	for _, f := range append(append(append([]float64(nil), carShort...), carF64only...), carWide...) {
+		if text64(f) != strconv.FormatFloat(f, 'f', -1, 64) { // the model takes ONE float64 text: keep to magnitudes where 'g' = 'f'
+			return fmt.Errorf("C09 carrier family: %v prints differently under 'g' and 'f'", f)
+		}
+	}
+	for ty := range carrierNames {
+		for _, z := range append(append([]int64(nil), carSmall...), carEdge...) {
+			if x, ok := carryInt(ty, z); ok {
+				site(gval{kind: 'i', i: z}, ty, x)
+			}
+		}
+		for _, f := range append(append(append([]float64(nil), carShort...), carF64only...), carWide...) {
+			if x, ok := carryFrac(ty, f); ok {
+				site(gval{kind: 'f', f: f}, ty, x)
+			}
+		}
 	}
 	return nil
 }
